@@ -379,7 +379,7 @@ func execC14(p *C14Plan, rc *simkit.RunCtx) {
 					w.Err = iface.Put(r)
 					w.Ret, w.OK = simrt.Seq(), w.Err == nil
 				case "delete":
-					w := &wrec{Writer: wi, Kind: "delete", Key: key, Inv: simrt.Seq()}
+					w := &wrec{G: simrt.GID(), Writer: wi, Kind: "delete", Key: key, Inv: simrt.Seq()}
 					s.writes = append(s.writes, w)
 					w.Err = priv.Delete(dbName + ":" + key)
 					w.Ret, w.OK = simrt.Seq(), w.Err == nil
@@ -584,6 +584,30 @@ func (s *c14State) checkHooks(note string) {
 				active := w.Inv > h.regRet && (h.cancelInv == 0 || w.Ret < h.cancelInv)
 				if n > 1 || (active && n != 1) {
 					rc.Fail("C14.hook-call-count", "a pre-put hook was not called exactly once for a matching put"+hnote, fmt.Sprintf("hook %d put %s: %d calls", hi, w.ID, n))
+					return
+				}
+			}
+		}
+		// deletes are puts of the deleted record: a pre-put hook whose query has no condition sees every
+		// successful delete of a key under its prefix exactly once
+		if h.spec.PrePut && h.spec.Cond == nil {
+			for _, w := range s.writes {
+				if w.Kind != "delete" || !strings.HasPrefix(w.Key, prefix) {
+					continue
+				}
+				n := 0
+				for _, c := range h.calls {
+					if c.Phase == "preput" && c.G == w.G && c.Key == w.Key && c.Seq > w.Inv && c.Seq < w.Ret {
+						n++
+					}
+				}
+				active := w.Inv > h.regRet && (h.cancelInv == 0 || w.Ret < h.cancelInv)
+				if h.spec.Action == "" && w.OK && active && n != 1 {
+					rc.Fail("C14.hook-call-count", "a pre-put hook was not called exactly once for a matching delete"+hnote, fmt.Sprintf("hook %d delete %s: %d calls", hi, w.Key, n))
+					return
+				}
+				if h.spec.Action == "veto" && w.OK && active && len(s.hooks) == 1 {
+					rc.Fail("C14.veto-ignored", "a delete vetoed by a pre-put hook succeeded", fmt.Sprintf("hook %d delete %s", hi, w.Key))
 					return
 				}
 			}
